@@ -21,4 +21,4 @@ printf '}}\n' >> "$scratch/overlay.json"
 # overlay replacement files must not look like package members of their directory
 for f in $files; do mv "$scratch/src/$f" "$scratch/src/$f.overlay"; done
 sed -i "s|\(/src/[^\"]*\)\"|\1.overlay\"|g" "$scratch/overlay.json"
-VERIF_OVERLAY="$scratch/overlay.json" "$@"
+VERIF_EVIDENCE_DIR="$scratch/evidence" VERIF_OVERLAY="$scratch/overlay.json" "$@"
